@@ -240,9 +240,9 @@ PROPS['C08'] = dict(
     oracle=oracle_multi(oracles.oracle_C08), rule=RULE, partial=EQV_PARTIAL[1:] + ['r_singularity: the root selection is a hand model; its scaling follows from the scaling of the coefficients (proved) given that the roots scale (contract of polyroots)'])
 
 PROPS['C09'] = dict(
-    lean=['QscProofs.C09', 'QscProofs.C09Frob'], theorems=thms('QscProofs.C09', 'QscProofs.C09Frob'), gen=['GradB', 'GradBCart', 'BfieldCyl', 'BfieldCart'],
+    lean=['QscProofs.C09', 'QscProofs.C09Frob', 'QscProofs.C09Axis'], theorems=thms('QscProofs.C09', 'QscProofs.C09Frob', 'QscProofs.C09Axis'), gen=['GradB', 'GradBCart', 'BfieldCyl', 'BfieldCart'],
     corr=corr_generated(['GradB', 'GradBCart', 'BfieldCyl', 'BfieldCart']), oracle=oracle_multi(oracles.oracle_C09),
-    rule=RULE, partial=[CONTINUUM, 'equality of the Frobenius norm in the three bases (C09Frob) is proved under orthonormality of the frame, which C03.frame_orthonormal_rh proves for the generated axis; the composition of the two is by inspection'])
+    rule=RULE, partial=[CONTINUUM, 'equality of the Frobenius norm in the three bases is proved for the frame generated from init_axis (C09Axis, composing C09Frob with C03.frame_orthonormal_rh) at every point of positive speed and curvature, in exact real arithmetic'])
 
 PROPS['C10'] = dict(
     lean=['QscProofs.C10', 'QscProofs.C10gen'], theorems=thms('QscProofs.C10') + thms('QscProofs.C10gen.Alt0', 'QscProofs.C10gen.Alt1', 'QscProofs.C10gen.Alt2', 'QscProofs.C10gen.Sym12', 'QscProofs.C10gen.Div', 'QscProofs.C10gen.Sym23', 'QscProofs.C10gen.Harmonic'),
@@ -297,10 +297,10 @@ PROPS['C17'] = dict(
              'plot_axis needs mayavi, which is not installed in this sandbox: covered statically only'])
 
 PROPS['C18'] = dict(
-    lean=['QscProofs.C16', 'QscProofs.C20Spec', 'QscProofs.C20Interp'], theorems=['C16.even_nphi_promoted', 'C20Spec.D_exact_sin', 'C20Spec.D_exact_cos', 'C20Interp.interp_exact_sin', 'C20Interp.interp_exact_cos'],
+    lean=['QscProofs.C16', 'QscProofs.C20Spec', 'QscProofs.C20Interp', 'QscProofs.C18Conv'], theorems=['C16.even_nphi_promoted', 'C20Spec.D_exact_sin', 'C20Spec.D_exact_cos', 'C20Interp.interp_exact_sin', 'C20Interp.interp_exact_cos'] + ['C18Conv.' + t for t in ('D_exact_trigPoly', 'D_resolution_independent', 'mean_exact', 'quadrature_exact', 'quadrature_resolution_independent', 'mean_resolution_independent', 'integral_trigPoly', 'quadrature_eq_integral', 'interp_exact_trigPoly', 'interp_resolution_independent', 'trigPoly_mul_degree', 'D_exact_mul', 'mean_mul_resolution_independent', 'interp_exact_mul')],
     gen=['Axis', 'R1d', 'R2', 'Mercier'], corr=corr_merge(corr_generated(['Axis', 'R1d', 'Mercier'], orders=('r2',)), corr_hand_kernels(['specdiff', 'dof', 'fmin', 'interp'])), oracle=oracle_multi(oracles.oracle_C18),
     rule=RULE + '; each case rebuilt with nphi - 1 (even) and on the ladder 31, 63, 127',
-    partial=['the quantitative convergence statements (1e-8 once resolved; second order for grid extrema and the trapezoid angle) are analysis: decided numerically on a resolution ladder and labelled as such (level "other" for that clause); proved: the promotion of even nphi and the exactness of the differentiation matrix and of the interpolant on every resolvable mode, which is the structural reason for spectral convergence'])
+    partial=['the quantitative convergence statements (1e-8 once resolved; second order for grid extrema and the trapezoid angle) are analysis: decided numerically on a resolution ladder and labelled as such (level "other" for that clause); proved: the promotion of even nphi, and (C18Conv) that on band-limited profiles every discrete operation the code uses - differentiation matrix, rectangle-rule period integrals and means (equal to the true integral), the trigonometric interpolant on which extrema are located, and pointwise products up to the aliasing limit (exact discrete Leibniz rule) - is exact and hence independent of the resolution, which is the structural reason for spectral convergence; the tail beyond the band limit and the nonlinear solves are the measured part'])
 
 PROPS['C19'] = dict(
     lean=['QscProofs.C19', 'QscProofs.Eqv'], theorems=thms('QscProofs.C19') + eqv_theorems(['Shear']),
@@ -310,11 +310,11 @@ PROPS['C19'] = dict(
                         'origin- and nfp-independence of the non-symmetric (trapezoid) branch, continuity across the branch switch and convergence hold to discretisation error: measured on a resolution ladder'])
 
 PROPS['C20'] = dict(
-    lean=['QscProofs.C20Spec', 'QscProofs.C20Interp', 'QscProofs.C20Fmin', 'QscProofs.C20Newton'],
-    theorems=thms('QscProofs.C20Spec', 'QscProofs.C20Interp', 'QscProofs.C20Fmin', 'QscProofs.C20Newton'),
+    lean=['QscProofs.C20Spec', 'QscProofs.C20Interp', 'QscProofs.C20InterpEven', 'QscProofs.C20Fmin', 'QscProofs.C20Newton'],
+    theorems=thms('QscProofs.C20Spec', 'QscProofs.C20Interp', 'QscProofs.C20InterpEven', 'QscProofs.C20Fmin', 'QscProofs.C20Newton'),
     gen=[], corr=corr_hand_kernels(['specdiff', 'interp', 'fmin', 'newton']), oracle=oracle_kernels,
     rule='spectral matrix for every n in 1..200 (thorough) / 1..32 + seeded larger n (quick) on several intervals; interpolation at random abscissae incl. exact nodes; fourier_minimum on smooth, constant, near-constant, random and tied data; Newton on smooth systems, perturbed Jacobians, stalls, NaN/inf episodes (scripted residual streams)',
-    partial=['interpolation exactness for even N (cot kernel) and the node guard eps*(D==0) are floating-point matters: measured', 'scipy minimize_scalar (Brent) is a parameter with the contract "result <= f(middle of the bracket)"', 'convergence of Newton on smooth well-posed systems is analysis: checked on seeded systems'])
+    partial=['the node guard eps*(D==0) of fourier_interpolation is a floating-point device: at a node the exact-arithmetic model divides by zero, so reproduction of the samples AT the nodes is measured, not proved (away from nodes exactness is proved for both parities: C20Interp, C20InterpEven)', 'scipy minimize_scalar (Brent) is a parameter with the contract "result <= f(middle of the bracket)"', 'convergence of Newton on smooth well-posed systems is analysis: checked on seeded systems'])
 
 
 def matches_known(k, failure):
